@@ -80,7 +80,7 @@ class Worker:
             for pid in m["props"]:
                 r = self.check(pid, m.get("tier", "quick"))
                 outs.append(r.stdout)
-                fired += re.findall(r"^\s*rule (\S+): ", r.stdout, re.M)
+                fired += re.findall(r"^\s*rule (.+?): ", r.stdout, re.M)
                 if r.returncode == 1 and "VIOLATION property=%s" % pid in r.stdout:
                     caught = True
                     if any(e in r.stdout for e in m["expect"]):
